@@ -37,6 +37,7 @@ func init() {
 			{ID: "C19.18", Desc: "the filter of the reference list drops the duplicate only", Run: func(c *Ctx) { ruleFilterLoopRunsToEnd(c, "C19.18") }, MinSites: 1},
 			{ID: "C19.19", Desc: "an index key of any length can be written and deleted (the length test measures the encoded name)", Run: func(c *Ctx) { ruleC14_7(c); renameRule(c, "C14.7", "C19.19") }, MinSites: 1},
 			{ID: "C19.20", Desc: "a refused publishing step is reported as an error (no temporary file stays behind per timed-out write)", Run: func(c *Ctx) { ruleGateRefusalIsAnError(c, "C19.20") }, MinSites: 1},
+			{ID: "C19.21", Desc: "the invalidation reads the index under the URL key (every variant it makes unreachable is found and deleted)", Run: func(c *Ctx) { ruleIndexKeyIsURLKey(c, "C19.21") }, MinSites: 3},
 		},
 	})
 	register(&Property{
